@@ -14,7 +14,8 @@ import Asn1cModel.Spec.ModuleAst
     asn1fix_dereft.c   asn1f_fix_dereference_types                          → `derefFatal`
     asn1fix.c          asn1f_check_duplicate, phase 1, fatal count          → `fixerRun`, `fixerVerdict`
   The C code follows references by pointer chasing (recursion guarded by TM_RECURSION marks
-  in some places, by a depth limit with a FATAL diagnostic in `_asn1f_compare_tags`).  The
+  in `asn1f_fetch_tags_impl`, by a depth limit with a FATAL diagnostic in `_asn1f_compare_tags`,
+  which sets no marks of its own any more).  The
   model follows them with fuel; "fuel exhausted" is a distinguished outcome (`none` / `.loop`)
   that poisons the result — `fixerVerdict` reports it as reject, as the C code does when its
   depth limit is reached — so that `Dom_C11` can say "the model never ran out of fuel" (true
@@ -172,36 +173,11 @@ def comps (M : Module) (root : List Comp) (hasExt : Bool) (adds : List Comp) : O
   | some fc => some (slotsOf fc.root hasExt fc.adds)
   | none => none
 
-/-- result of a tag comparison: `clash` = −1 (FATAL "has the same tag"); `cut` = somewhere
-    inside, the `if(a->_mark & TM_RECURSION) return 0;` guard answered -/
-structure CR where
-  clash : Bool
-  cut : Bool
-  deriving DecidableEq, Repr
-
-def CR.no : CR := ⟨false, false⟩
-def CR.or (x y : CR) : CR := ⟨x.clash || y.clash, x.cut || y.cut⟩
-
 /-- first clash wins (`if(ret) return ret;`), out-of-fuel poisons -/
-def anyClash : List (Option CR) → Option CR
-  | [] => some CR.no
+def anyClash : List (Option Bool) → Option Bool
+  | [] => some false
   | none :: _ => none
-  | some r :: rest =>
-    if r.clash then some r
-    else
-      match anyClash rest with
-      | none => none
-      | some r' => some (r.or r')
-
-def isUntaggedRef : Ex → Bool
-  | .ty (.ref none _) => true
-  | _ => false
-
-/-- `asn1f_fetch_outmost_tag` on an expression that may carry the TM_RECURSION mark set by
-    `_asn1f_compare_tags`: `asn1f_fetch_tags_impl` refuses to follow a marked reference
-    (`if(expr->_mark & TM_RECURSION) return -1;`) -/
-def fetchMarked (M : Module) (x : Ex) (marked : Bool) : Fetch :=
-  if marked && isUntaggedRef x then .fail else fetchOutmost M (fuel M) x
+  | some r :: rest => if r then some true else anyClash rest
 
 /-- which branch of `_asn1f_compare_tags(a, b)` is taken -/
 inductive Step
@@ -213,16 +189,17 @@ inductive Step
   | followA (n : String)
   /-- `ra && a->expr_type == ASN_CONSTR_CHOICE` -/
   | choiceA (r : List Comp) (h : Bool) (ad : List Comp)
-  /-- `rb && b->expr_type == ASN_CONSTR_CHOICE` -/
-  | swapChoice
-  /-- the last branch: TM_RECURSION guard, mark, swap -/
-  | swapMark
+  /-- `rb && (b->meta_type == AMT_TYPEREF || b->expr_type == ASN_CONSTR_CHOICE)` -/
+  | swap
+  /-- the final `return 0;` -/
+  | done
 
-/-- the tests on b, reached when none of the tests on a applied -/
+/-- the test on b, reached when none of the tests on a applied -/
 def classifyB (rb : Fetch) (b : Ex) : Step :=
   match rb, b with
-  | .fail, .ty (.constr _ .choice _ _ _) => .swapChoice
-  | _, _ => .swapMark
+  | .fail, .ty (.constr _ .choice _ _ _) => .swap
+  | .fail, .ty (.ref _ _) => .swap
+  | _, _ => .done
 
 /-- the tests on a, reached when a has no outermost tag (`ra != 0`) -/
 def classifyA (a : Ex) (rb : Fetch) (b : Ex) : Step :=
@@ -231,17 +208,16 @@ def classifyA (a : Ex) (rb : Fetch) (b : Ex) : Step :=
   | .ty (.constr _ .choice r h ad) => .choiceA r h ad
   | _ => classifyB rb b
 
-/-- the chain of `if`s at the head of `_asn1f_compare_tags`; `ma`/`mb`: a/b currently carry
-    TM_RECURSION -/
-def classify (M : Module) (a : Ex) (ma : Bool) (b : Ex) (mb : Bool) : Step :=
-  match fetchMarked M a ma with
+/-- the chain of `if`s at the head of `_asn1f_compare_tags` -/
+def classify (M : Module) (a b : Ex) : Step :=
+  match fetchOutmost M (fuel M) a with
   | .loop => .loop
   | .fail =>
-    match fetchMarked M b mb with
+    match fetchOutmost M (fuel M) b with
     | .loop => .loop
     | rb => classifyA a rb b
   | .tag x =>
-    match fetchMarked M b mb with
+    match fetchOutmost M (fuel M) b with
     | .loop => .loop
     | .tag y => .both x y
     | .fail => classifyB .fail b
@@ -249,60 +225,56 @@ def classify (M : Module) (a : Ex) (ma : Bool) (b : Ex) (mb : Bool) : Step :=
 /-- `_asn1f_compare_tags(a, b)`.
     Both outermost tags known → compare (class, value).  Otherwise, if a has no outermost
     tag: a reference is looked up and followed (missing symbol → 0), a CHOICE is iterated
-    over its members (first clash returns).  Otherwise, if b is a CHOICE without tag: swap.
-    Otherwise: if a or b is marked return 0, else mark both and swap.
-    (The marks live on the expression nodes; an expression reached by following a reference or
-    by iterating a CHOICE is a different node, hence unmarked — true as long as the
-    look-through graph is acyclic.  On a cyclic graph the C function stops at depth 1000 with
-    FATAL "the type is defined through itself" and −1; the model's `none`.) -/
-def compareTags (M : Module) : Nat → Ex → Bool → Ex → Bool → Option CR
-  | 0, _, _, _, _ => none
-  | f + 1, a, ma, b, mb =>
-    match classify M a ma b mb with
+    over its members (first clash returns).  Otherwise, if b is a reference or a CHOICE
+    without outermost tag: swap.  Otherwise 0.
+    (No TM_RECURSION marks are set.  On a cyclic look-through graph the C function stops at
+    depth 1000 with FATAL "the type is defined through itself" and −1; the model's `none`.) -/
+def compareTags (M : Module) : Nat → Ex → Ex → Option Bool
+  | 0, _, _ => none
+  | f + 1, a, b =>
+    match classify M a b with
     | .loop => none
-    | .both x y => some ⟨x == y, false⟩
+    | .both x y => some (x == y)
     | .followA n =>
       match M.lookup n with
-      | none => some CR.no
-      | some t' => compareTags M f (.ty t') false b mb
+      | none => some false
+      | some t' => compareTags M f (.ty t') b
     | .choiceA r h ad =>
       match comps M r h ad with
       | none => none
-      | some ss => anyClash (ss.map (fun s => compareTags M f s.ex false b mb))
-    | .swapChoice => compareTags M f b mb a ma
-    | .swapMark =>
-      if ma || mb then some ⟨false, true⟩
-      else compareTags M f b true a true
+      | some ss => anyClash (ss.map (fun s => compareTags M f s.ex b))
+    | .swap => compareTags M f b a
+    | .done => some false
 
 /-- no short cut (`r_value = -1` and continue), out-of-fuel poisons -/
-def orAll : List (Option CR) → Option CR
-  | [] => some CR.no
+def orAllB : List (Option Bool) → Option Bool
+  | [] => some false
   | x :: rest =>
-    match x, orAll rest with
-    | some a, some b => some (a.or b)
+    match x, orAllB rest with
+    | some a, some b => some (a || b)
     | _, _ => none
 
 /-- inner loop of `asn1f_check_constr_tags_distinct`: v against the following members; in a
     SEQUENCE stop after the first member without OPTIONAL/DEFAULT -/
-def checkRun (M : Module) (isSeq : Bool) (v : Slot) : List Slot → Option CR
-  | [] => some CR.no
+def checkRun (M : Module) (isSeq : Bool) (v : Slot) : List Slot → Option Bool
+  | [] => some false
   | nv :: rest =>
-    match compareTags M (fuel M) v.ex false nv.ex false with
+    match compareTags M (fuel M) v.ex nv.ex with
     | none => none
     | some c =>
       if isSeq && !nv.opt then some c
       else
         match checkRun M isSeq v rest with
         | none => none
-        | some r => some (c.or r)
+        | some r => some (c || r)
 
 /-- outer loop: SET/CHOICE every member, SEQUENCE every OPTIONAL/DEFAULT member -/
-def checkDistinct (M : Module) (isSeq : Bool) : List Slot → Option CR
-  | [] => some CR.no
+def checkDistinct (M : Module) (isSeq : Bool) : List Slot → Option Bool
+  | [] => some false
   | v :: rest =>
-    match (if !isSeq || v.opt then checkRun M isSeq v rest else some CR.no),
+    match (if !isSeq || v.opt then checkRun M isSeq v rest else some false),
           checkDistinct M isSeq rest with
-    | some c, some r => some (c.or r)
+    | some c, some r => some (c || r)
     | _, _ => none
 
 /-- `asn1f_check_unique_expr`: a child whose identifier equals that of a preceding child
@@ -361,28 +333,17 @@ def derefFatal (M : Module) (t : Ty) : Option Bool :=
   | _ => some false
 
 /-- the checks of the property's catalogue on one type expression -/
-def nodeFatal (M : Module) : Ty → Option CR
-  | .ref g n =>
-    match derefFatal M (.ref g n) with
-    | none => none
-    | some f => some ⟨f, false⟩
-  | .enum _ r _ a => some ⟨(fixEnum r a).2, false⟩
+def nodeFatal (M : Module) : Ty → Option Bool
+  | .ref g n => derefFatal M (.ref g n)
+  | .enum _ r _ a => some (fixEnum r a).2
   | .constr _ k r h a =>
     match comps M r h a with
     | none => none
     | some ss =>
       match checkDistinct M (k == .sequence) ss with
       | none => none
-      | some c => some ⟨dupNames [] ((r ++ a).map Comp.name) || c.clash, c.cut⟩
-  | _ => some CR.no
-
-/-- no short cut, out-of-fuel poisons -/
-def orAllB : List (Option Bool) → Option Bool
-  | [] => some false
-  | x :: rest =>
-    match x, orAllB rest with
-    | some a, some b => some (a || b)
-    | _, _ => none
+      | some c => some (dupNames [] ((r ++ a).map Comp.name) || c)
+  | _ => some false
 
 /-- the other FATALs the fixer can raise on one type expression of this algebra (outside the
     catalogue): IMPLICIT on a member (or SEQUENCE OF / SET OF element) that must be EXPLICIT; tagged additions
@@ -417,13 +378,12 @@ def otherFatal (M : Module) : Option Bool :=
 
 /-- rejection reasons of the catalogue: tag clash, duplicate identifier, duplicate enumeration
     item, unknown type -/
-def catalogueFatal (M : Module) : Option CR := orAll (M.nodes.map (nodeFatal M))
+def catalogueFatal (M : Module) : Option Bool := orAllB (M.nodes.map (nodeFatal M))
 
-/-- `asn1f_process` returns −1 iff some FATAL was raised; `none`: the model ran out of fuel;
-    `.cut`: a TM_RECURSION guard of `_asn1f_compare_tags` answered somewhere -/
-def fixerRun (M : Module) : Option CR :=
+/-- `asn1f_process` returns −1 iff some FATAL was raised; `none`: the model ran out of fuel -/
+def fixerRun (M : Module) : Option Bool :=
   match catalogueFatal M, otherFatal M with
-  | some a, some b => some ⟨a.clash || b, a.cut⟩
+  | some a, some b => some (a || b)
   | _, _ => none
 
 inductive Verdict | accept | reject
@@ -434,7 +394,7 @@ inductive Verdict | accept | reject
     `Dom_C11` excludes it.) -/
 def fixerVerdict (M : Module) : Verdict :=
   match fixerRun M with
-  | some ⟨false, _⟩ => .accept
+  | some false => .accept
   | _ => .reject
 
 end Asn1c.Impl.Fixer
